@@ -10,8 +10,9 @@ Clauses (property C09):
   report       every uncaught error (`x err who`) is immediately reported to the master (`meh 0 boom who`)
   heartbeats   the set of objects whose heart beat is on at the end = switched on - switched off - destructed -
                (objects in whose heart_beat task an uncaught error occurred): only the failing object's is removed
-  commands     every complete line a client sent is served by its user object, in order, exactly once (a prefix if the
-               user was disconnected / destructed, or the driver was shut down from the console)
+  commands     every complete line a client sent reaches its user object (process_input), in order, exactly once (a
+               prefix if the user was disconnected / destructed, or the driver was shut down from the console); the
+               commands executed are a subsequence of these lines (a line is dropped only when its own input task failed)
   callouts     every scheduled call_out fired, unless its object was destructed (or shutdown)
   leak         no connection record outlives its user (slots occupied at the end = users still connected)
 -/
@@ -100,6 +101,11 @@ def finalSlots (es : List Ev) : Option Nat :=
 
 def isPrefix (a b : List String) : Bool := a.length ≤ b.length && b.take a.length == a
 
+def isSubseq : List String → List String → Bool
+  | [], _ => true
+  | _ :: _, [] => false
+  | a :: as, b :: bs => if a == b then isSubseq as bs else isSubseq (a :: as) bs
+
 def judgeEv (x : Expect) (es : List Ev) : List String :=
   let crashes := (es.filter isCrash).map (fun e => match e with | .crash why => s!"crash {why}" | _ => "crash")
   if !crashes.isEmpty then crashes.take 1 else
@@ -129,8 +135,9 @@ def judgeEv (x : Expect) (es : List Ev) : List String :=
       let gotC := servedCmds es u
       let gotI := servedInputs es u
       let partialOk := gone.contains u || x.closed.contains c || shut || !x.settle
-      let ok (got : List String) := if partialOk then isPrefix got want else got == want
-      if ok gotC && ok gotI then none
+      -- every line reaches process_input; the command itself is skipped only when that task failed
+      let okI := if partialOk then isPrefix gotI want else gotI == want
+      if okI && isSubseq gotC gotI then none
       else some s!"commands {u.name} served={gotC} inputs={gotI} sent={want}")
   let v6 := if shut || !x.settle then [] else
     es.filterMap (fun e => match e with
